@@ -313,6 +313,9 @@ func H_C07_shapes() {
 	n := verif.Choose("rows", maxRows(2, 3)+1)
 	form := verif.Choose("form", 13)
 	doc, rows := numTable(n, "a", "b")
+	if form == 3 && n > 2 {
+		verif.Assume(false) // the self-join of a CTE: up to 2 rows (4 result rows) in both tiers
+	}
 	// a document key with the name the CTEs use: the CTE shadows it
 	doc["m"] = []any{Map{"a": float64(100), "b": float64(7)}}
 	c := verif.F64("c")
